@@ -130,6 +130,7 @@ func RunObserved(ctx context.Context, pr Program, sameProc, doRollback bool) (*O
 	res.WriteSet = common.VerifWriteSet(t.P)
 	res.Deltas = common.VerifCountDeltas(t.P)
 	res.Items = common.VerifItemCounts(t.P)
+	res.WriteItems = common.VerifWriteItemCounts(t.P)
 	res.Values = common.VerifValueIDs(t.P)
 	nameWriteSet(e, res.WriteSet, o.Pre)
 	res.N0 = e.Canon.Next()
@@ -170,10 +171,18 @@ func (o *Observed) JudgeC03() []Failure {
 	seen := map[string]bool{}
 	for _, p := range o.Pauses {
 		if p.DumpErr != nil {
-			sig := fmt.Sprintf("C03/reader-error/%s", p.Phase)
+			// why: a first root registered in phase 1 (finding C03-F2) that the writer's rollback is taking apart
+			// (blob, then registry entry, then - for a created store - the store) is the one explained cause
+			cause := "other"
+			for _, n := range o.Res.WriteSet {
+				if n.Action == "root" && p.Phase == "rollback" {
+					cause = "uncommitted-root-being-removed"
+				}
+			}
+			sig := fmt.Sprintf("C03/reader-error/%s/%s", p.Phase, cause)
 			if !seen[sig] {
 				seen[sig] = true
-				out = append(out, Failure{"C03", sig, "a reader failed while a writer was in flight", fmt.Sprintf("%s before %s#%d: %v", p.Phase, p.Name, p.Occ, p.DumpErr)})
+				out = append(out, Failure{"C03", sig, "a reader failed while a writer was in flight", fmt.Sprintf("program %s setup=%v target=%v; %s before %s#%d: %v", o.Prog.Header(), o.Prog.Setup, o.Prog.Target, p.Phase, p.Name, p.Occ, p.DumpErr)})
 			}
 			continue
 		}
